@@ -168,7 +168,7 @@ def pre(ctx):
     nsets, nlook, npre, nmis = (int(vals[k]) for k in ('sets', 'lookups', 'prefixsets', 'mismatches'))
     if nsets != 1 + 63 + 1953 + 39711 + 595665:
         raise HarnessError('harness enumerated %d sets' % nsets)
-    ctx.extra['exhaustive'] = {'exhaustive': True, 'identifiers': len(ids), 'sets': nsets, 'lookups': nlook,
+    ctx.extra['exhaustively_enumerated_part'] = {'exhaustive': True, 'identifiers': len(ids), 'sets': nsets, 'lookups': nlook,
                                'sets_with_a_name_prefix_of_another': npre, 'mismatches': nmis}
     ctx.note(['exhaustive-small-scope', nsets], True, 'exhaustive:set-of-<=4-small-identifiers', n=nsets)
     if nmis:
